@@ -64,6 +64,16 @@ Definition curIs (st : pstate) (t : tok) : bool := tok_eqb (ttype (curT st)) t.
 Definition peekIs (st : pstate) (t : tok) : bool := tok_eqb (ttype (peekT st)) t.
 Definition peekIn (st : pstate) (ts : list tok) : bool := inb (ttype (peekT st)) ts.
 
+(* the token after the peek token (read ahead on a copy of the lexer) *)
+Definition peek2T (st : pstate) : token :=
+  match toks st with
+  | _ :: _ :: t :: _ => t
+  | [_; t] => t
+  | [t] => t
+  | [] => eofTok
+  end.
+Definition peek2Is (st : pstate) (t : tok) : bool := tok_eqb (ttype (peek2T st)) t.
+
 Fixpoint tlookup {A} (t : tok) (m : list (tok * A)) : option A :=
   match m with
   | [] => None
@@ -497,12 +507,15 @@ Fixpoint parseStatement (fuel : nat) (st : pstate) {struct fuel} : pres stmt :=
         if negb ok2 then POk SNull st5 else
         do (slots, st6) <-
           (if peekIs st5 T_SLOT then parseSlots f [] (advance st5)
-           else if peekIs st5 T_HTML && isWhitespaceLit (tlit (peekT st5)) then
-             let st5' := advance st5 in
-             if peekIs st5' T_SLOT then parseSlots f [] (advance st5') else POk (Some []) st5'
+           else if peekIs st5 T_HTML && isWhitespaceLit (tlit (peekT st5)) && peek2Is st5 T_SLOT then
+             (* slotFollowsPeek: one more token of look-ahead, on a copy of the lexer *)
+             parseSlots f [] (advance (advance st5))
            else POk (Some []) st5);
         let slots' := match slots with Some l => l | None => [] end in
-        let '(cid, st7) := freshId st6 in
+        (* a component that was given slots is closed by its own "@end" (stmt.Slots != nil) *)
+        let '(okE, st6') := match slots' with [] => (true, st6) | _ :: _ => expectPeek st6 T_END end in
+        if negb okE then POk SNull st6' else
+        let '(cid, st7) := freshId st6' in
         POk (SComponent ln cid name arg slots' None) (addComponent st7 (cid, ln, name, slots'))
       end
     | T_SLOT => parseSlotStmt st
